@@ -5,8 +5,10 @@ pub mod c04;
 pub mod c06;
 pub mod c13;
 pub mod c15;
+pub mod c17;
 pub mod c18;
+pub mod c19;
 
 pub fn all() -> Vec<&'static dyn Check> {
-    vec![&c03::C03, &c04::C04, &c06::C06, &c13::C13, &c15::C15, &c18::C18]
+    vec![&c03::C03, &c04::C04, &c06::C06, &c13::C13, &c15::C15, &c17::C17, &c18::C18, &c19::C19]
 }
